@@ -17,8 +17,8 @@ def litDouble (t : Bytes) : String :=
   | none => "?"
 
 /-- what SCPI_ParamToDouble makes of a decimal token inside the expression: strtod from the token start (it reads on past
-the token like strtol does) -/
-def tokDouble (win : Bytes) (t : Token) : String := litDouble ((win.drop t.ptr).take (Prim.strtodLen win t.ptr))
+the token like strtol does); the text is the model's `Expr.tokDoubleText`, the one `Props.C19.numeric_entry_double` is about -/
+def tokDouble (win : Bytes) (t : Token) : String := litDouble (tokDoubleText win t)
 
 /-- X <hexbody> <index> <cap> => n… c… -/
 def runExpr (inp : List String) (obs : List String) : Option Verdict := do
@@ -55,7 +55,15 @@ def runExpr (inp : List String) (obs : List String) : Option Verdict := do
             let want := ["n0", (if e.to_.isSome then "1" else "0"), hexOfBytes e.from_, (match e.to_ with | some t => hexOfBytes t | none => "-"),
                          toString (litInt32 e.from_), (match e.to_ with | some t => toString (litInt32 t) | none => "-"),
                          litDouble e.from_, (match e.to_ with | some t => litDouble t | none => "-")]
-            if nf == want then [] else if nf.headD "" != "n0" then ["C19.numeric_entry_not_ok"] else ["C19.numeric_entry_value"]
+            if nf == want then [] else if nf.headD "" != "n0" then ["C19.numeric_entry_not_ok"]
+            else
+              -- known finding (C04.whitespace_in_literal inside a list, Props.C19.numeric_entry_double_counterexample): everything is as
+              -- written except the double of a number that contains white space - the clause is computed from the case, as in C04
+              let wsF := e.from_.any isWs
+              let wsT := match e.to_ with | some t => t.any isWs | none => false
+              let dblOk := fun (k : Nat) (ws : Bool) => ws || nf.getD k "" == want.getD k ""
+              if nf.length == 8 ∧ nf.take 6 == want.take 6 ∧ dblOk 6 wsF ∧ dblOk 7 wsT then ["C19.whitespace_in_literal"]
+              else ["C19.numeric_entry_value"]
           | none => if nf == ["n2"] then [] else ["C19.numeric_no_more"]
         | none =>
           -- any other content: OK only if the entry and everything before it is well formed
